@@ -300,6 +300,31 @@ theorem restore_inv (P : Env Val) (g : Heap → Val) (hG : PartialGetter P.G g)
   left
   rfl
 
+/-- A set through the property's own setter keeps the invariant: whatever the
+setter writes goes through `mutate`. -/
+theorem setProp_inv (P : Env Val) (g : Heap → Val) (hG : PartialGetter P.G g)
+    (hD : DependsOnly g P.E P.root) (hS : ObserveSound P) (s : St Val) (a : SetArg) (hi : Inv P g s) :
+    Inv P g (setProp P s a).2 := by
+  have hc : ∀ x, Inv P g (callSetter P s x).2 := by
+    intro x
+    unfold callSetter
+    split
+    · exact hi
+    · split
+      · exact hi
+      · exact runMuts_inv P g hG hD hS _ _ hi
+  cases a with
+  | delete => exact hi
+  | value x =>
+    simp only [setProp]
+    cases P.fvalidate with
+    | none => exact hc x
+    | some fv =>
+      simp only
+      cases fv x with
+      | error e => exact hi
+      | ok y => exact hc y
+
 theorem step_inv (P : Env Val) (g : Heap → Val) (hG : PartialGetter P.G g)
     (hD : DependsOnly g P.E P.root) (hS : ObserveSound P) (hp : P.postInit = false)
     (s : St Val) (st : Step) (hi : Inv P g s) : Inv P g (step P s st) := by
@@ -310,6 +335,7 @@ theorem step_inv (P : Env Val) (g : Heap → Val) (hG : PartialGetter P.G g)
   | detach => exact hi
   | attachObj => exact hi
   | detachObj => exact hi
+  | set a => exact setProp_inv P g hG hD hS s a hi
   | construct ws => exact restore_inv P g hG hD hS hp _ _
   | copy => exact restore_inv P g hG hD hS hp _ _
 
